@@ -386,6 +386,23 @@ let run_transcode (payload : string) : string =
        | M.PumpErr -> "err")
   | _ -> failwith "bad transcode payload"
 
+(* tstream: "<j2c|c2j> <oracle> <piece>,<piece>,..." : each piece pumped on its own ("!hex": a piece that must fail) *)
+let run_tstream (payload : string) : string =
+  match split_ws payload with
+  | [dir; oracle; ps] ->
+      String.concat " ;; " (List.map (fun p ->
+          if String.length p > 0 && p.[0] = '!' then "err"
+          else begin
+            let bs = bytes_of_hex p in
+            let r = if dir = "j2c" then M.pump_j2c bs
+              else M.pump_c2j (make_shortest oracle) { M.jline = None; M.jindent = [] } false bs in
+            match r with
+            | M.PumpOk (out, []) -> "ok " ^ hex_or_dash out
+            | M.PumpOk (_, _) -> "rest"
+            | M.PumpErr -> "err"
+          end) (String.split_on_char ',' ps))
+  | _ -> failwith "bad tstream payload"
+
 (* ---------- s-expressions and the object-layer descriptors ------------------------ *)
 type sx = A of string | L of sx list
 
@@ -748,8 +765,9 @@ let run_untrusted (payload : string) : string =
       let cls = match toks with
         | None -> "err"
         | Some toks ->
-            if mode = "p" then
-              (if fmt = "c" then (match M.jenc_tokens (fun _ -> ([byte_tab.(1)], M.Zpos M.XH)) { M.jline = None; M.jindent = [] } toks with
+            if mode = "p" || mode = "t" || mode = "w" then
+              (* t / w: into the JSON encoder with indentation options, from either format *)
+              (if fmt = "c" || mode <> "p" then (match M.jenc_tokens (fun _ -> ([byte_tab.(1)], M.Zpos M.XH)) { M.jline = None; M.jindent = [] } toks with
                    | M.JFinished (_, n) when int_of_nat n = List.length toks -> "ok" | _ -> "err")
                else (match M.enc_tokens toks with
                    | M.Finished (_, n) when int_of_nat n = List.length toks -> "ok" | _ -> "err"))
@@ -845,6 +863,7 @@ let dispatch (suite : string) (payload : string) : string =
   | "obj-marshal" -> run_obj_marshal payload
   | "obj-unmarshal" -> run_obj_unmarshal payload
   | "transcode" -> run_transcode payload
+  | "tstream" -> run_tstream payload
   | "wfault" -> run_wfault payload
   | "whistory" -> run_whistory payload
   | "rfault" -> run_rfault payload
